@@ -275,6 +275,7 @@ func (ex *Exec) resetPath() {
 	ex.pathNotes = nil
 	ex.pathCovers = nil
 	ex.lastInstr = ""
+	ex.hashOf = nil
 	ex.curInstr = nil
 }
 
